@@ -245,7 +245,11 @@ pub static PANICS_CAUGHT_ON_OTHER_INSTANCES: std::sync::atomic::AtomicU64 = std:
 pub fn panicking_calls(app: &mut crate::engines::e1_chain::PApp) -> u32 {
     use cw_multi_test::Executor;
     let owner = app.api().addr_make("panic-owner");
-    let code = app.store_code(Box::new(cw_multi_test::ContractWrapper::new(pn_execute, pn_instantiate, pn_query).with_sudo(pn_sudo)));
+    // (an instance that holds a code with the highest possible id has no id left: storing another code panics by design)
+    let code = match catch(|| app.store_code(Box::new(cw_multi_test::ContractWrapper::new(pn_execute, pn_instantiate, pn_query).with_sudo(pn_sudo)))) {
+        Ok(c) => c,
+        Err(_) => return 0,
+    };
     let addr = match app.instantiate_contract(code, owner.clone(), &cosmwasm_std::Empty {}, &[], "panicker", None) {
         Ok(a) => a,
         Err(_) => return 0,
